@@ -27,7 +27,7 @@ TCHARS = "!#$%&'*+-.^_`|~0123456789abcdefghijklmnopqrstuvwxyzABCDEFGHIJKLMNOPQRS
 COOKIE_OCTETS = [chr(c) for c in [0x21] + list(range(0x23, 0x2C)) + list(range(0x2D, 0x3B)) + list(range(0x3C, 0x5C)) + list(range(0x5D, 0x7F))]
 BLANKS = ["", "", "", " ", " ", "\t", "  ", " \t", "\t "]
 HDRS = ["Cookie", "cookie", "COOKIE", "cOoKiE"]
-NAME_POOL = ["a", "b", "A", "sid", "SID", "x-y", "k1", "k2", "!#$%&'*+-.^_`|~"]
+NAME_POOL = ["a", "b", "A", "sid", "SID", "x-y", "k1", "k2", "!#$%&'*+-.^_`|~", "__Host-sid", "__Secure-id", "__host-x", "__Host", "$Version", "Path", "Secure"]
 
 
 def tok(s):
